@@ -143,16 +143,32 @@ fn judge_frag(fc: &FCfg, order: (u64, u64), t: &mut Tally) {
             if let Some(s) = m.flush_segment() {
                 segs.push(s);
             }
-            (init, segs)
+            // a second object with the same history whose init segment is first requested after
+            // the flushes: it is a header like the other and decoded the same way
+            let late = frag::make(fc).ok().map(|mut m2| {
+                let _ = m2.write_video(fc.start_dts, fc.start_dts, &[1, 2, 3, 4, 5], true);
+                let _ = m2.flush_segment();
+                let _ = m2.write_video(fc.start_dts + 6000, fc.start_dts + 3000, &[6, 7], false);
+                let _ = m2.flush_segment();
+                m2.init_segment()
+            });
+            (init, segs, late)
         })
     });
     match r {
         Err(p) => t.violation("C19/init/panic", order, || format!("{fc:?}: {p}"), case),
         Ok(Err(_)) => t.count("builder_rejected", 1),
-        Ok(Ok((init, segs))) => {
+        Ok(Ok((init, segs, late))) => {
             let m = parse_movie(&init, "init");
             t.outcome(oracle::report::h64(&init));
             let mut issues: Issues = m.probs.of(&[Class::Spec]).into_iter().map(|p| (p.sig.clone(), p.detail.clone())).collect();
+            if let Some(late) = &late {
+                let ml = parse_movie(late, "init");
+                // (same signatures as for the early request: what is wrong with a header does not
+                // depend on when it was asked for; the detail says which request it was)
+                issues.extend(ml.probs.of(&[Class::Spec]).into_iter().map(|p| (p.sig.clone(), format!("init segment first requested after two flushes: {}", p.detail))));
+                issues.extend(value_checks(&ml, "init", fc.width, fc.height, fc.timescale, fc.timescale).into_iter().map(|(s, d)| (s, format!("init segment first requested after two flushes: {d}"))));
+            }
             // for init segments the movie header carries the fragment timescale (1000 is not demanded)
             issues.extend(value_checks(&m, "init", fc.width, fc.height, fc.timescale, fc.timescale));
             for tx in &m.trex {
